@@ -250,11 +250,11 @@ example : Spec.denied oF cF { qF with method := "POST" } = false ∧
 (go/ast → Lean, `harness/factextract/irlib.go`); it is the hand-written `allow` on every input. -/
 theorem allow_regenerated_from_source (f : Filter) (ip : Option Addr) :
     Gen.FactsC05IR.extractionFailed = false ∧ Gen.FactsC05IR.allowIR f ip = IPFilter.allow f ip :=
-  ⟨by decide, allowIR_eq_model f ip⟩
+  ⟨by decide, IPFilter.allow_regenerated_from_source f ip⟩
 
 /-- the same for the loop of `IPFilters.Allow` (generated structural recursion) and `allowAll`. -/
 theorem allowAll_regenerated_from_source (fs : List Filter) (ip : Option Addr) :
     Gen.FactsC05IR.extractionFailed = false ∧ Gen.FactsC05IR.allowAllIR fs ip = IPFilter.allowAll fs ip :=
-  ⟨by decide, allowAllIR_eq_model fs ip⟩
+  ⟨by decide, IPFilter.allowAll_regenerated_from_source fs ip⟩
 
 end EgVerif.C05
